@@ -24,7 +24,7 @@ import (
 func init() {
 	register(stream{
 		name: "chain",
-		rule: "real signed delegations (sealed, then decoded) and invocations over a pool of 5 Ed25519 principals, checked with ExecutionAllowed / ExecutionAllowedWithArgsHook against a map-backed loader. Families: (principals) every chain of ≤ K links (K=2 quick, 3 thorough) over every (issuer, audience, subject∈{0,1,2,absent}) assignment × every invocation (issuer, subject) with a varying audience; (commands) conforming chains of 1–3 links with every assignment of a 6-command lattice (top, parent, child, sibling, shared textual prefix) to invocation and links; (time) every present/absent/past/future combination of not-before and expiration on the invocation and each link; (policy) constraining statements distributed over every link × argument maps, with and without an argument hook (replacing, failing); (random) chains of ≤ 8 (40 thorough) links with 0–2 deviations of any kind at any position, missing and duplicated proofs, irrelevant fields varied; (histories) the same invocation token validated several times while the loader's content, the argument hook and the wall clock (a bound two seconds away) change between validations. Added later: every scenario is decided FIVE ways on one token (twice in a row; through the hook entry point with an identity hook; with a hook that first validates an unrelated invocation; with a hook that first validates the scenario's repaired twin) and each verdict is held against the model; after construction the caller adds a key to the Args value it handed in (the token must not change); (twins) principals 5–9 = the key bytes of 0–4 under another key-type codec at every naming position; (key-types) RSA, P-256 and secp256k1 principals at every role, delegations decoded and as constructed; (command-pairs) every ordered pair of valid commands ≤ 4 (5) bytes over {/,a,b} as delegated/invoked and root/leaf, decided one after the other; (after-root, variant-cid, long-then-cut) proofs listed after the root, links named by another CID over the same digest, a 12-link chain alternating with cut versions of itself; (policy-long) 15…1000 always-true statements around the deciding one; (fresh-nbf, iat-future) constructed delegations with not-before = now, invocations issued in the future over not-yet-active links; (shared-policies) delegations built from policy slices that share one backing array; IsValidAt probes at years 1…100000 and 2^53-1 s.; (policy-optional) every operator over an optional selector on missing, null and present arguments at every link; (policy-neighbours) neighbouring links with policies of the same shape over different arguments; (time-far) bounds some 285 years away; (command-multibyte) commands with multi-byte characters sharing prefixes that end inside or right after a character. (case-twins) principals 13–17 = the identifier of 0–4 with the case of one letter flipped, at every naming position; (aligned-repeat) rule-conforming chains in which one delegation occurs twice or the subject reappears; policies that use one selector twice (first where its failure does not decide) and connectives/quantifiers with one operand over missing required and one over missing optional data. Non-trivial = the chain has ≥ 1 link and at most two clause groups fail. Distinct = distinct protocol lines.",
+		rule: "real signed delegations (sealed, then decoded) and invocations over a pool of 5 Ed25519 principals, checked with ExecutionAllowed / ExecutionAllowedWithArgsHook against a map-backed loader. Families: (principals) every chain of ≤ K links (K=2 quick, 3 thorough) over every (issuer, audience, subject∈{0,1,2,absent}) assignment × every invocation (issuer, subject) with a varying audience; (commands) conforming chains of 1–3 links with every assignment of a 6-command lattice (top, parent, child, sibling, shared textual prefix) to invocation and links; (time) every present/absent/past/future combination of not-before and expiration on the invocation and each link; (policy) constraining statements distributed over every link × argument maps, with and without an argument hook (replacing, failing); (random) chains of ≤ 8 (40 thorough) links with 0–2 deviations of any kind at any position, missing and duplicated proofs, irrelevant fields varied; (histories) the same invocation token validated several times while the loader's content, the argument hook and the wall clock (a bound two seconds away) change between validations. Added later: every scenario is decided FIVE ways on one token (twice in a row; through the hook entry point with an identity hook; with a hook that first validates an unrelated invocation; with a hook that first validates the scenario's repaired twin) and each verdict is held against the model; after construction the caller adds a key to the Args value it handed in (the token must not change); (twins) principals 5–9 = the key bytes of 0–4 under another key-type codec at every naming position; (key-types) RSA, P-256 and secp256k1 principals at every role, delegations decoded and as constructed; (command-pairs) every ordered pair of valid commands ≤ 4 (5) bytes over {/,a,b} as delegated/invoked and root/leaf, decided one after the other; (after-root, variant-cid, long-then-cut) proofs listed after the root, links named by another CID over the same digest, a 12-link chain alternating with cut versions of itself; (policy-long) 15…1000 always-true statements around the deciding one; (fresh-nbf, iat-future) constructed delegations with not-before = now, invocations issued in the future over not-yet-active links; (shared-policies) delegations built from policy slices that share one backing array; IsValidAt probes at years 1…100000 and 2^53-1 s.; (policy-optional) every operator over an optional selector on missing, null and present arguments at every link; (policy-neighbours) neighbouring links with policies of the same shape over different arguments, and the same statement over values of different kinds that print alike (100 / 100.0, bytes / their DAG-JSON map); (policy-whole-args) statements over the whole argument map and its value list, arguments supplied sorted and unsorted; (time-far) bounds some 285 years away; (command-multibyte) commands with multi-byte characters sharing prefixes that end inside or right after a character; (command-fold) commands differing only by lowercase letters that Unicode case folding equates (σ/ς, µ/μ, ſ/s, ı/i, θ/ϑ, β/ϐ); (command-concat) (delegated, invoked) pairs whose texts concatenate to the same string, decided one after the other in both orders. (case-twins) principals 13–17 = the identifier of 0–4 with the case of one letter flipped, at every naming position; (aligned-repeat) rule-conforming chains in which one delegation occurs twice or the subject reappears; policies that use one selector twice (first where its failure does not decide) and connectives/quantifiers with one operand over missing required and one over missing optional data. Non-trivial = the chain has ≥ 1 link and at most two clause groups fail. Distinct = distinct protocol lines.",
 		run:  runChainStream,
 		eval: evalChain,
 		cmp:  cmpChain,
@@ -948,12 +948,29 @@ func runChainStream(c *ctx) error {
 				}
 			}
 		}
+		// statements over the WHOLE argument map (selector ".") and over the list of its values (".[]"), with the arguments handed
+		// to the constructor in sorted and in unsorted order: the arguments are one map, however they were put together
+		for _, pl := range []string{"P(ceq(2e,m(61:i1,62:s78)))", "P(ceq(2e5b5d,l(i1,s78)))", "P(!(ceq(2e,m(61:i1,62:s78))))"} {
+			for _, a := range []string{"m(61:i1,62:s78)", "m(62:s78,61:i1)", "m(62:s78,61:i1,63:i0)", "m(63:i0,62:s78,61:i1)", "m(62:s78)", "m()"} {
+				for n := 1; n <= 2; n++ {
+					s := conforming(n)
+					s.links[n-1].pol = pl
+					s.args = a
+					c.emitScenario(s, "policy-whole-args")
+				}
+			}
+		}
 		// neighbouring links whose policies have the same shape (one statement of one kind each) over different arguments
 		for _, pair := range [][2]string{
 			{"P(ceq(2e61,i1))", "P(ceq(2e62,s78))"}, {"P(cgt(2e61,i0))", "P(cgt(2e62,i0))"}, {"P(ceq(2e61,i1))", "P(ceq(2e61,i2))"},
 			{"P(k(2e62," + hxs("x*") + "))", "P(k(2e63," + hxs("y*") + "))"},
+			// the same statement over values of different KINDS that print alike: integer 100 / float 100.0, bytes "abc" / the
+			// map DAG-JSON writes for them
+			{"P(cle(2e61,i100))", "P(cle(2e61,d4059000000000000))"}, {"P(ceq(2e61,i100))", "P(ceq(2e61,d4059000000000000))"},
+			{"P(ceq(2e61,b616263))", "P(ceq(2e61,m(2f:m(6279746573:s59574a6a))))"},
 		} {
-			for _, a := range []string{"m(61:i1,62:s78)", "m(61:i1,62:s79)", "m(61:i2,62:s78)", "m(61:i1,62:i5)", "m(61:i1,62:i0)", "m(61:i1,62:s78,63:s79)", "m(61:i1,62:s78,63:s78)"} {
+			for _, a := range []string{"m(61:i1,62:s78)", "m(61:i1,62:s79)", "m(61:i2,62:s78)", "m(61:i1,62:i5)", "m(61:i1,62:i0)", "m(61:i1,62:s78,63:s79)", "m(61:i1,62:s78,63:s78)",
+				"m(61:d4049400000000000)", "m(61:i50)", "m(61:i100)", "m(61:d4059000000000000)", "m(61:b616263)", "m(61:m(2f:m(6279746573:s59574a6a)))"} {
 				for n := 2; n <= 3; n++ {
 					for pos := 0; pos+1 < n; pos++ {
 						s := conforming(n)
@@ -1007,6 +1024,44 @@ func runChainStream(c *ctx) error {
 				t.links[0].cmd = o
 				t.cmd = o
 				c.emitScenario(t, "command-multibyte")
+			}
+		}
+	}
+	// (2d) commands that differ only by lowercase letters which Unicode case FOLDING equates (σ/ς, µ/μ, ſ/s, ı/i …): each
+	// is its own valid command; neither covers the other. (2e) pairs of (delegated, invoked) commands whose texts CONCATENATE
+	// to the same string, decided one after the other in both orders: ("/a", "/a/b/cc") is covered, ("/a/a", "/b/cc") is not.
+	{
+		fold := []string{"/σ", "/ς", "/ς/send", "/σ/send", "/µ", "/μ", "/µ/x", "/μ/x", "/ſ", "/s", "/s/x", "/ſ/x", "/ı", "/i", "/i/ı", "/ǆ", "/ǆ/a", "/θ", "/ϑ", "/ϑ/a", "/β/a", "/ϐ"}
+		for _, d := range fold {
+			for _, o := range fold {
+				s := conforming(1)
+				s.links[0].cmd = d
+				s.cmd = o
+				c.emitScenario(s, "command-fold")
+				if len(d) == len(o) || strings.HasPrefix(o, d) || strings.HasPrefix(d, o) {
+					t := conforming(2)
+					t.links[1].cmd = d
+					t.links[0].cmd = o
+					t.cmd = o
+					c.emitScenario(t, "command-fold")
+				}
+			}
+		}
+		type pr struct{ d, o string }
+		for _, q := range [][2]pr{{{"/a", "/a/b/cc"}, {"/a/a", "/b/cc"}}, {{"/x", "/x/yy/z"}, {"/x/x", "/yy/z"}}, {{"/", "/q/q"}, {"/q", "/q"}}, {{"/q", "/q"}, {"/", "/q/q"}},
+			{{"/é", "/é/é/k"}, {"/é/é", "/k"}}, {{"/m/n", "/m/n/m/n"}, {"/m/n/m", "/n/m/n"}}} {
+			for _, order := range [][2]int{{0, 1}, {1, 0}, {0, 1}} {
+				for _, k := range order {
+					s := conforming(1)
+					s.links[0].cmd = q[k].d
+					s.cmd = q[k].o
+					c.emitScenario(s, "command-concat")
+					t := conforming(2)
+					t.links[1].cmd = q[k].d
+					t.links[0].cmd = q[k].o
+					t.cmd = q[k].o
+					c.emitScenario(t, "command-concat")
+				}
 			}
 		}
 	}
